@@ -566,7 +566,29 @@ pub fn run(e: &dyn Engine, o: &Opts) -> Report {
     let mut batch: Vec<String> = Vec::new();
     let pre: Option<Vec<Outcome>> = if e.isolated() {
         let cs: Vec<Vec<String>> = all.iter().map(|(_, c)| c.lines.clone()).collect();
-        Some(run_isolated(e, &cs, 20))
+        let mut outs = run_isolated(e, &cs, 20);
+        // A crash or hang decides a property, so it has to be a fact about the code and not about the machine: every case
+        // on which the child process died or stopped responding is run again on its own, up to twice.  If it then completes,
+        // the first observation is attributed to the load of the machine (recorded as `infra.crash-not-reproduced`) and the
+        // completed run is what gets compared.
+        let crashed: Vec<usize> = outs.iter().enumerate().filter(|(_, o)| o.hung && o.resp.first().map(|r| r == "CRASH").unwrap_or(false)).map(|(i, _)| i).collect();
+        for i in crashed.into_iter().take(12) {
+            let mut again = None;
+            for _ in 0..2 {
+                let o = run_isolated(e, &[cs[i].clone()], 30).pop().unwrap();
+                if !(o.hung && o.resp.first().map(|r| r == "CRASH" || r == "not-run").unwrap_or(false)) {
+                    again = Some(o);
+                } else {
+                    again = None;
+                    break;
+                }
+            }
+            if let Some(mut o) = again {
+                o.tags.push("infra.crash-not-reproduced".into());
+                outs[i] = o;
+            }
+        }
+        Some(outs)
     } else {
         None
     };
